@@ -151,9 +151,15 @@ func gen(r *coqfmt.Rng, n int, tier string) []json.RawMessage {
 		switch x := r.Intn(10); {
 		case x < 4:
 			nw := 1 + r.Intn(8)
+			if r.Chance(1, 6) {
+				nw = 9 + r.Intn(40) // long identifiers: fixed-size buffers, length arithmetic
+			}
 			ws := make([]string, nw)
 			for j := range ws {
 				ws[j] = genWord(r)
+				if r.Chance(1, 10) {
+					ws[j] += genWord(r) + genWord(r) // long words
+				}
 			}
 			if r.Chance(1, 4) {
 				// arbitrary ASCII words (outside the theorems' [a-z][a-z0-9]*): encoder and decoder are
